@@ -9,6 +9,12 @@ import (
 func (in *Interp) allocEvent(size *Term) {
 	in.specAbortIf("alloc event in region")
 	in.Effects = append(in.Effects, "alloc:"+size.String())
+	in.maxTerms = append(in.maxTerms, size)
+	if in.allocFatal {
+		// an allocation of a size the program controls and nothing bounds: in
+		// the real runtime a fatal out-of-memory error, which no recover() stops
+		panic(&pathEnd{Kind: "fatal", Msg: "fatal: allocation of unbounded size " + trunc160(size.String()) + " @ " + in.stackString()})
+	}
 	if in.AllocEventIsPanic {
 		panic(&goPanic{Val: IfaceV{T: types.Typ[types.String], V: StrV{S: "huge allocation"}},
 			Msg: "fatal: allocation of unbounded size " + size.String(), Stack: in.stackString()})
